@@ -571,5 +571,74 @@ theorem pathset_refines_generated (ops : List (PathSet.PSOp PathSet.GoodPath))
   rw [generated_rules_eq] at h ⊢
   exact pathset_refines ops st h
 
+/-- the `PathSet` methods that are more than a forwarded call — `AddAllSteps`, `Equal`, `Empty`, `List` — as written
+in the source, are the model's (`PathSet.addAll` of `prefixes`, `equal`, `isEmpty`, `list`), for any rules over paths -/
+theorem generated_pathset_methods_eq (R : Rules Path) (s o : SetImpl Path) (p : Path) :
+    Generated.PathFns.PathSet_AddAllSteps R s p = .ok (PathSet.addAll R s (PathSet.prefixes p)) ∧
+    Generated.PathFns.PathSet_Equal R s o = .ok (PathSet.equal R s o) ∧
+    Generated.PathFns.PathSet_Empty s = .ok (PathSet.isEmpty s) ∧
+    Generated.PathFns.PathSet_List R s = .ok (PathSet.list R s) :=
+  ⟨PathFnsTie.addAllSteps_eq R s p, PathFnsTie.equal_eq R s o, PathFnsTie.empty_eq s, PathFnsTie.list_eq R s⟩
+
+/-- `AddAllSteps`, about the translated source: no slice bound is out of range, and afterwards the set holds what it
+held together with exactly the non-empty prefixes of the path (up to `Equivalent`) -/
+theorem pathset_addAllSteps_generated {R : Rules Path} (hR : R.Lawful) {s : SetImpl Path} (hs : SetImpl.InvB R s)
+    (p : Path) :
+    ∃ s', Generated.PathFns.PathSet_AddAllSteps R s p = .ok s' ∧ SetImpl.InvB R s' ∧
+      ∀ y, SetImpl.abs R s' y ↔ (SetImpl.abs R s y ∨ ∃ n, 0 < n ∧ n ≤ p.length ∧ R.equiv y (p.take n) = true) := by
+  refine ⟨_, PathFnsTie.addAllSteps_eq R s p, PathSet.invB_addAll hR hs _, fun y => ?_⟩
+  rw [PathSet.abs_addAll hR hs]
+  simp only [PathSet.prefixes, List.mem_map, List.mem_range]
+  constructor
+  · rintro (h | ⟨x, ⟨i, hi, rfl⟩, hx⟩)
+    · exact Or.inl h
+    · exact Or.inr ⟨i + 1, by omega, by omega, hx⟩
+  · rintro (h | ⟨n, h0, hn, hx⟩)
+    · exact Or.inl h
+    · exact Or.inr ⟨_, ⟨n - 1, by omega, rfl⟩, by rwa [show n - 1 + 1 = n by omega]⟩
+
+/-- `Equal`, about the translated source: it decides equality of the sets of paths the two values stand for -/
+theorem pathset_equal_generated {R : Rules Path} (hR : R.Lawful) {s o : SetImpl Path}
+    (hs : SetImpl.InvB R s) (ho : SetImpl.InvB R o) :
+    ∃ b, Generated.PathFns.PathSet_Equal R s o = .ok b ∧ (b = true ↔ ∀ y, SetImpl.abs R s y ↔ SetImpl.abs R o y) :=
+  ⟨_, PathFnsTie.equal_eq R s o, PathSet.equal_iff hR hs ho⟩
+
+/-- `cty.Walk` / `walk` as written in the source (cty/walk.go; the callback a parameter, `ElementIterator` the model's
+element iteration) make the same callback invocations with the same outcome as the model's `Walk.walk` — for every
+callback, failing, pruning and panicking ones included -/
+theorem generated_walk_eq (X : SetOracle) (cb : WalkCb) (val : Value) :
+    Generated.PathFns.go_Walk X cb [] val = walk X cb val := PathFnsTie.walk_eq X cb val
+
+/-- every member exactly once, parents first — about the translated `Walk` -/
+theorem walk_preorder_once_generated {X : SetOracle} (hX : IterPerm X) (root : Value) :
+    ∃ ps : List Pos,
+      ps.length = (Generated.PathFns.go_Walk X descend [] root).1.length ∧
+      ps.Nodup ∧
+      (∀ pos, pos ∈ ps ↔ (nodeAt X root pos).isSome = true) ∧
+      (∀ i (h : i < ps.length) (h' : i < (Generated.PathFns.go_Walk X descend [] root).1.length),
+        nodeAt X root ps[i] = some ((Generated.PathFns.go_Walk X descend [] root).1[i]).2 ∧
+        pathAt X root ps[i] = some ((Generated.PathFns.go_Walk X descend [] root).1[i]).1) ∧
+      ps.Pairwise (fun a b => posLt a b = true) ∧
+      (Generated.PathFns.go_Walk X descend [] root).2 = .ok () := by
+  simp only [generated_walk_eq]
+  exact walk_preorder_once hX root
+
+/-- whatever the callback does, the translated `Walk` visits a sub-listing of the full pre-order listing -/
+theorem walk_any_callback_sublist_generated (X : SetOracle) (cb : WalkCb) (root : Value) :
+    (Generated.PathFns.go_Walk X cb [] root).1.Sublist (Generated.PathFns.go_Walk X descend [] root).1 ∨ ¬ IterPerm X := by
+  simp only [generated_walk_eq]
+  exact walk_any_callback_sublist X cb root
+
+/-- the paths the translated `Walk` reports, applied by the translated `Path.Apply`, lead back to the visited member -/
+theorem walk_apply_roundtrip_generated {X : SetOracle} (hX : IterPerm X) (root : Value)
+    (hs : shapedV root = true) (p : Path) (n : Value)
+    (hv : (p, n) ∈ (Generated.PathFns.go_Walk X descend [] root).1) :
+    ∃ pos, nodeAt X root pos = some n ∧ pathAt X root pos = some p ∧
+      (noSetAt X root pos = true →
+        ∃ a, Generated.PathFns.Path_Apply p root = .ok a ∧ a.unmark = n.unmark) := by
+  rw [generated_walk_eq] at hv
+  obtain ⟨pos, h1, h2, h3⟩ := walk_paths_lead_back_generated hX root hs p n hv
+  exact ⟨pos, h1, h2, fun h => let ⟨a, ha, hu, _⟩ := h3 h; ⟨a, ha, hu⟩⟩
+
 end C19
 end CtyModel
